@@ -290,7 +290,7 @@ def _check(ctx):
             flush_model(ctx, lines, pending)
     check_decoding(ctx)
     # every mutation class from a fixed stream, first on every seed
-    for data, kind, response in H.deterministic_mutants(8 if ctx.quick else 16):
+    for data, kind, response in H.deterministic_mutants(16):
         cfg = H.Cfg(response=response, lax=response)
         one_stream(ctx, rng, cfg, data, "fixed:" + kind, lines, pending)
         if len(lines) >= 150000:
